@@ -286,7 +286,7 @@ def corpus_lines(engine):
 # which space-separated fields of a case may be shrunk (list fields: drop elements; numeric: smaller)
 SHRINK_FIELDS = {"mlw": [1, 3, 4], "spy": [3], "fmt": [4], "queue": [3], "queue0": [2], "sock": [5], "holder": [2], "mac": [4]}
 
-ENGINE_OF = {"mlw": "mlw", "spy": "mlw", "fmt": "fmt", "std": "fmt", "val": "fmt", "queue": "queue", "qstress": "queue", "queue0": "queue",
+ENGINE_OF = {"mlw": "mlw", "spy": "mlw", "fmt": "fmt", "std": "fmt", "val": "fmt", "raw": "fmt", "queue": "queue", "qstress": "queue", "queue0": "queue",
              "qburst": "queue", "qlatency": "queue", "qdroprace": "queue",
              "sock": "sock", "sockmt": "sock", "socklock": "sock", "sockcr": "sock", "holder": "holder", "mac": "macros"}
 
